@@ -187,6 +187,9 @@ def cppEval (ρ : Env) : Expr → CRes
   | .upper e => withType (abs (.upper e)) fun _ => .stuck
   | .lower e => withType (abs (.lower e)) fun _ => .stuck
   | .cref e => withType (abs e) fun _ => .stuck
+  -- a reference to a virtual field: a literal when constant-typed, otherwise the field's own
+  -- accessor, i.e. the C++ evaluation of its definition (whose root does the same test)
+  | .vref e => cppEval ρ e
 def cppEvalList (ρ : Env) : List Expr → List CRes
   | [] => []
   | e :: es => cppEval ρ e :: cppEvalList ρ es
